@@ -4,7 +4,7 @@
    closes the knot with recursion fuel.  Loops use [loopS] whose fuel is one unit per remaining
    token plus one, so an iteration that neither exits nor consumes runs out of fuel. *)
 From Coq Require Import NArith Arith List Bool.
-From OQ3 Require Import gen.Kinds Model.Parser.
+From OQ3 Require Import gen.Kinds gen.Ops Model.Parser.
 Import ListNotations.
 Local Open Scope nat_scope.
 
@@ -39,28 +39,19 @@ Definition loopS {A B} (body : A -> M (A + B)) (a : A) : M B :=
 Definition loop (body : M bool) : M unit :=
   loopS (fun _ : unit => b <- body ;; ret (if b then inl tt else inr tt)) tt.
 
-(* ---------------- token sets ---------------- *)
-Definition ITEM_RECOVERY_SET : list N :=
-  [K_GATE_KW; K_DEF_KW; K_DEFCAL_KW; K_DEFCALGRAMMAR_KW; K_INCLUDE_KW; K_CAL_KW; K_RESET_KW;
-   K_BARRIER_KW; K_CONST_KW; K_LET_KW; K_O_P_E_N_Q_A_S_M_KW; K_SEMICOLON].
-Definition PATH_FIRST : list N := [K_IDENT; K_HARDWAREIDENT; K_COLON; K_L_ANGLE].
-Definition LITERAL_FIRST : list N :=
-  [K_BIT_STRING; K_BYTE; K_CHAR; K_FLOAT_NUMBER; K_INT_NUMBER; K_STRING; K_TRUE_KW; K_FALSE_KW].
-Definition TIMING_LITERAL_FIRST : list N := [K_INT_NUMBER; K_FLOAT_NUMBER].
-Definition ATOM_EXPR_FIRST : list N :=
-  LITERAL_FIRST ++ PATH_FIRST ++
-  [K_L_PAREN; K_L_CURLY; K_L_BRACK; K_PIPE; K_BOX_KW; K_CONST_KW; K_FOR_KW; K_IF_KW; K_LET_KW;
-   K_RETURN_KW; K_WHILE_KW; K_MEASURE_KW; K_INV_KW; K_CTRL_KW; K_NEGCTRL_KW; K_POW_KW; K_GPHASE_KW].
-Definition EXPR_RECOVERY_SET : list N := [K_R_PAREN; K_R_BRACK].
-Definition LHS_FIRST : list N :=
-  ATOM_EXPR_FIRST ++ [K_AMP; K_STAR; K_BANG; K_TILDE; K_DOT; K_MINUS; K_UNDERSCORE].
-Definition EXPR_FIRST : list N := LHS_FIRST.
-Definition PATTERN_FIRST : list N :=
-  LITERAL_FIRST ++ PATH_FIRST ++
-  [K_BOX_KW; K_CONST_KW; K_L_PAREN; K_L_BRACK; K_AMP; K_UNDERSCORE; K_MINUS; K_TILDE; K_DOT].
-Definition TYPE_FIRST : list N :=
-  PATH_FIRST ++ [K_L_PAREN; K_L_BRACK; K_L_ANGLE; K_BANG; K_STAR; K_AMP; K_UNDERSCORE; K_EXTERN_KW].
-Definition PARAM_FIRST : list N := PATTERN_FIRST ++ TYPE_FIRST.
+(* ---------------- token sets ----------------
+   translated from the TokenSet constants of grammar/** on every run (gen/Ops.v) *)
+Definition ITEM_RECOVERY_SET : list N := gen_ITEM_RECOVERY_SET.
+Definition PATH_FIRST : list N := gen_PATH_FIRST.
+Definition LITERAL_FIRST : list N := gen_LITERAL_FIRST.
+Definition TIMING_LITERAL_FIRST : list N := gen_TIMING_LITERAL_FIRST.
+Definition ATOM_EXPR_FIRST : list N := gen_ATOM_EXPR_FIRST.
+Definition EXPR_RECOVERY_SET : list N := gen_EXPR_RECOVERY_SET.
+Definition LHS_FIRST : list N := gen_LHS_FIRST.
+Definition EXPR_FIRST : list N := gen_EXPR_FIRST.
+Definition PATTERN_FIRST : list N := gen_PATTERN_FIRST.
+Definition TYPE_FIRST : list N := gen_TYPE_FIRST.
+Definition PARAM_FIRST : list N := gen_PARAM_FIRST.
 
 (* rust: grammar.rs impl SyntaxKind *)
 Definition is_scalar_type (k : N) : bool := kin k is_scalar_type_list.
@@ -399,7 +390,7 @@ Definition lhs (prefer_stmt : bool) : M (option (cmarker * bool)) :=
   k <- current ;;
   if kin k [K_TILDE; K_BANG; K_MINUS] then
     m <- start ;; bump_any ;;;
-    g_expr_bp R None prefer_stmt 14 ;;;
+    g_expr_bp R None prefer_stmt unary_bp ;;;
     cm <- complete m K_PREFIX_EXPR ;; ret (Some (cm, false))
   else
     a <- atom_expr ;;
@@ -409,42 +400,19 @@ Definition lhs (prefer_stmt : bool) : M (option (cmarker * bool)) :=
         r <- postfix_expr l blocklike (negb (prefer_stmt && blocklike)) ;; ret (Some r)
     end.
 
-(* rust: current_op -- (binding power, operator kind, right-associative?) *)
-Definition NOT_AN_OP : nat * N * bool := (0, K_DOT3, false).
-Definition current_op_val (p : nat) : nat * N * bool :=
-  let att k := nth_at_pure p 0 k in
-  let k := kind_at p in
-  if keq k K_PIPE then
-    if att K_PIPE2 then (3, K_PIPE2, false) else if att K_PIPEEQ then (1, K_PIPEEQ, true) else (5, K_PIPE, false)
-  else if keq k K_R_ANGLE then
-    if att K_SHREQ then (1, K_SHREQ, true) else if att K_SHR then (10, K_SHR, false)
-    else if att K_GTEQ then (9, K_GTEQ, false) else (9, K_R_ANGLE, false)
-  else if keq k K_EQ then
-    if att K_FAT_ARROW then NOT_AN_OP else if att K_EQ2 then (8, K_EQ2, false) else (13, K_EQ, true)
-  else if keq k K_L_ANGLE then
-    if att K_LTEQ then (9, K_LTEQ, false) else if att K_SHLEQ then (1, K_SHLEQ, true)
-    else if att K_SHL then (10, K_SHL, false) else (9, K_L_ANGLE, false)
-  else if keq k K_PLUS then
-    if att K_PLUSEQ then (1, K_PLUSEQ, true) else if att K_DOUBLE_PLUS then (2, K_DOUBLE_PLUS, false)
-    else (11, K_PLUS, false)
-  else if keq k K_STAR then
-    if att K_DOUBLE_STAR then (15, K_DOUBLE_STAR, true) else if att K_STAREQ then (1, K_STAREQ, true)
-    else (12, K_STAR, false)
-  else if keq k K_CARET then
-    if att K_CARETEQ then (1, K_CARETEQ, true) else (6, K_CARET, false)
-  else if keq k K_PERCENT then
-    if att K_PERCENTEQ then (1, K_PERCENTEQ, true) else (12, K_PERCENT, false)
-  else if keq k K_AMP then
-    if att K_AMPEQ then (1, K_AMPEQ, true) else if att K_AMP2 then (4, K_AMP2, false) else (7, K_AMP, false)
-  else if keq k K_SLASH then
-    if att K_SLASHEQ then (1, K_SLASHEQ, true) else (12, K_SLASH, false)
-  else if keq k K_DOT then
-    if att K_DOT2EQ then (2, K_DOT2EQ, false) else if att K_DOT2 then (2, K_DOT2, false) else NOT_AN_OP
-  else if keq k K_BANG then
-    if att K_NEQ then (8, K_NEQ, false) else NOT_AN_OP
-  else if keq k K_MINUS then
-    if att K_MINUSEQ then (1, K_MINUSEQ, true) else (11, K_MINUS, false)
-  else NOT_AN_OP.
+(* rust: current_op -- (binding power, operator kind, right-associative?).  The arms of the
+   match are translated from expressions.rs on every run (gen/Ops.v: op_arms, in source order);
+   the first arm whose kind is the current one and whose p.at(..) guard holds decides. *)
+Definition NOT_AN_OP : nat * N * bool := (0, not_an_op_kind, false).
+Fixpoint interp_ops (arms : list (N * option N * option (nat * N * bool))) (p : nat) : nat * N * bool :=
+  match arms with
+  | [] => NOT_AN_OP
+  | (c, g, res) :: r =>
+      if keq (kind_at p) c && match g with Some o => nth_at_pure p 0 o | None => true end
+      then match res with Some x => x | None => NOT_AN_OP end
+      else interp_ops r p
+  end.
+Definition current_op_val (p : nat) : nat * N * bool := interp_ops op_arms p.
 Definition current_op : M (nat * N * bool) := fun s => Ok (current_op_val (pos s)) s.
 
 Definition expr_bp (m : option marker) (prefer_stmt : bool) (bp : nat)
